@@ -102,6 +102,13 @@ def cases(seed, tier):
     return out
 
 
+def extra(seed, tier, workdir):
+    """the same workload (every family, evenly sub-sampled) on the ASan/UBSan build of the pinned engine"""
+    from . import _sanitizer
+
+    return _sanitizer.asan_stage_on_sample('C03', 'biomon.checks.c03', cases(seed + 1000, tier), workdir, tier, 40, 800)
+
+
 def warmup():
     import biogeme.biogeme  # noqa
     import biogeme.expressions  # noqa
